@@ -20,8 +20,11 @@ func c12Candidates(lvl int) []string {
 		small = gen.Alt(small, gen.Lit("0", "1.0.1", "2", "1.2.3.4", "1.0.0.0", "10.0", "0.0.1", "2.1"))
 		num = gen.Lit("1", "2", "10", "0", "01", "2147483648")
 	}
+	// unknown words that embed a known qualifier as prefix or suffix (suffix/prefix tests on raw text)
+	embed := gen.Lit("prerelease", "semifinal", "mega", "omega", "preparation", "pre", "semi", "finalx", "gax", "rcx", "xrc", "alphax", "xalpha", "betas", "snapshots", "spx", "xsp", "crx", "milestones", "releases", "am", "ba", "ma", "PreRelease", "SEMIFINAL")
 	m := gen.Magnitudes
 	return gen.Alt(
+		gen.Seq(gen.Lit("1", "1.0", "1.1"), gen.Lit(".", "-"), embed, gen.Opt(gen.Lit("1", "-1", ".2"))),
 		gen.Seq(gen.Lit("1.", "1-", "1-alpha-", "1-rc", "1.0.", "1-sp-", "1-foo-"), m),
 		gen.Seq(m, gen.Lit("", ".1", "-1", "-rc")),
 		core,
